@@ -259,7 +259,7 @@ func (fr *frame) curThread() *thread { return fr.i.path.sched.cur }
 func mutexLock(fr *frame, mp *value, what string) {
 	p := fr.i.path
 	m := p.env.mutex(mp)
-	p.sched.yield("lock:" + what)
+	lockPoint(fr, what)
 	th := p.sched.cur
 	if m.locked && m.owner == th.id {
 		// self-deadlock: Go mutexes are not reentrant
@@ -271,6 +271,29 @@ func mutexLock(fr *frame, mp *value, what string) {
 	m.locked = true
 	m.owner = th.id
 	th.locks = append(th.locks, mp)
+}
+
+// lockPoint: after h.SymbolicLocks() every Lock/RLock call made by /repo code
+// (not by harness files) is a scheduling point named lock:<file>:<line>, with
+// the same per-thread hit counting as verifhook.Point. Natively the replay
+// build inserts verifhook.Point("lock:<file>:<line>") before the same calls.
+func lockPoint(fr *frame, what string) {
+	p := fr.i.path
+	s := p.sched
+	if !s.lockPoints || fr.caller == nil || fr.caller.fn == nil {
+		return
+	}
+	file := fr.i.prog.Fset.Position(fr.caller.fn.Pos()).Filename
+	if strings.Contains(file, "zz_verif") || !strings.Contains(file, "/repo/") || strings.Contains(file, "/verifh") {
+		return
+	}
+	name := "lock:" + what
+	th := s.cur
+	if th.pointHits == nil {
+		th.pointHits = map[string]int{}
+	}
+	th.pointHits[name]++
+	s.yield(fmt.Sprintf("point:%s#%d", name, th.pointHits[name]))
 }
 
 func mutexUnlock(fr *frame, mp *value, what string) {
@@ -541,7 +564,7 @@ func init() {
 	E("(*sync.RWMutex).RLock", func(fr *frame, args []value) value {
 		p := fr.i.path
 		m := p.env.mutex(recvPtr(args[0], "RWMutex.RLock"))
-		p.sched.yield("rlock")
+		lockPoint(fr, mutexName(fr))
 		p.sched.block(func() bool { return !m.locked }, "rwmutex (read) "+mutexName(fr))
 		m.readers++
 		return nil
